@@ -938,6 +938,125 @@ pub fn zugzwang_root_stage(x: &mut u64) -> Result<Pos, u8> {
 pub fn zugzwang_root_candidate(x: &mut u64) -> Option<Pos> {
     zugzwang_root_stage(x).ok()
 }
+/// Sharper variant used to build the embedded corpus `zz_corpus.txt` (dev-zz3): attacker K+Q (now
+/// and then K+R or K+Q+minor), defender K + one or two pawns each BLOCKED by an attacking man
+/// standing directly in front of it (so the attacker has no free tempo move), defender's king on
+/// the rim. Z (attacker to move): no mate within 3; with the defender to move instead every move
+/// walks into a mate in one. Root = Z with the defender's king one step back; every other root
+/// move is mated within exactly 3. Returns (root, stage reached) for rate measurements.
+pub fn zz3_candidate(x: &mut u64) -> Result<Pos, u8> {
+    let mut next = |n: u64| -> u64 {
+        *x = x.wrapping_mul(6364136223846793005).wrapping_add(1442695040888963407);
+        ((*x >> 33) * n) >> 31
+    };
+    let s_white = next(2) == 0;
+    let (sc, oc) = if s_white { (Color::White, Color::Black) } else { (Color::Black, Color::White) };
+    let fwd: i64 = if s_white { 8 } else { -8 }; // direction the defender's pawns move
+    let mut z = Pos::empty();
+    let rim: Vec<u8> = (0..64u8).filter(|s| s % 8 == 0 || s % 8 == 7 || s / 8 == 0 || s / 8 == 7).collect();
+    let sk = rim[next(rim.len() as u64) as usize];
+    z.sq[sk as usize] = Some((sc, Kind::King));
+    let near = |c: u8, d: i64, next: &mut dyn FnMut(u64) -> u64| -> u8 {
+        let r = ((c / 8) as i64 + next((2 * d + 1) as u64) as i64 - d).clamp(0, 7);
+        let f = ((c % 8) as i64 + next((2 * d + 1) as u64) as i64 - d).clamp(0, 7);
+        (r * 8 + f) as u8
+    };
+    let okq = near(sk, 3, &mut next);
+    if z.sq[okq as usize].is_some() {
+        return Err(1);
+    }
+    z.sq[okq as usize] = Some((oc, Kind::King));
+    let heavy = if next(5) == 0 { Kind::Rook } else { Kind::Queen };
+    let hq = near(sk, 4, &mut next);
+    if z.sq[hq as usize].is_some() {
+        return Err(1);
+    }
+    z.sq[hq as usize] = Some((oc, heavy));
+    if next(4) == 0 {
+        let m = next(64) as usize;
+        if z.sq[m].is_none() {
+            z.sq[m] = Some((oc, if next(2) == 0 { Kind::Knight } else { Kind::Bishop }));
+        }
+    }
+    // defender's pawns, each directly behind (from its point of view) an attacking man
+    let blockers: Vec<u8> = (0..64u8).filter(|&s| matches!(z.sq[s as usize], Some((c, _)) if c == oc)).collect();
+    for _ in 0..1 + next(2) {
+        let b = blockers[next(blockers.len() as u64) as usize] as i64;
+        let ps = b - fwd;
+        if (8..56).contains(&ps) && z.sq[ps as usize].is_none() {
+            z.sq[ps as usize] = Some((sc, Kind::Pawn));
+        }
+    }
+    if next(3) == 0 {
+        // a free-standing extra pawn pair blocked against each other somewhere
+        let a = 8 + next(40) as i64;
+        let (lo, hi) = (a, a + 8);
+        if z.sq[lo as usize].is_none() && z.sq[hi as usize].is_none() {
+            z.sq[lo as usize] = Some((Color::White, Kind::Pawn));
+            z.sq[hi as usize] = Some((Color::Black, Kind::Pawn));
+        }
+    }
+    z.stm = oc;
+    if !z.is_legal_position() {
+        return Err(2);
+    }
+    // (b) first, it is the cheap one: defender to move instead - every move walks into a mate in one
+    let mut zp = z.clone();
+    zp.stm = sc;
+    if !zp.is_legal_position() || zp.in_check(sc) {
+        return Err(3);
+    }
+    let sm = zp.legal_moves();
+    if sm.is_empty() {
+        return Err(3);
+    }
+    for m in &sm {
+        let a = zp.apply(m);
+        if !a.legal_moves().iter().any(|r| a.apply(r).is_checkmate()) {
+            return Err(4);
+        }
+    }
+    // (a) the attacker, having to move, cannot mate within three
+    if Solver::with_memo(1_500_000).mate_in(&z, 3) != Some(false) {
+        return Err(5);
+    }
+    // root: the defender's king came from a neighbouring square; all its other moves lose within three
+    let (kr, kf) = ((sk / 8) as i64, (sk % 8) as i64);
+    let mut origins = vec![];
+    for dr in -1i64..=1 {
+        for df in -1i64..=1 {
+            let (r, f) = (kr + dr, kf + df);
+            if (dr, df) != (0, 0) && (0..8).contains(&r) && (0..8).contains(&f) && z.sq[(r * 8 + f) as usize].is_none() {
+                origins.push((r * 8 + f) as u8);
+            }
+        }
+    }
+    let mut found = None;
+    for from in origins {
+        let mut root = z.clone();
+        root.sq[sk as usize] = None;
+        root.sq[from as usize] = Some((sc, Kind::King));
+        root.stm = sc;
+        if !root.is_legal_position() {
+            continue;
+        }
+        let legal = root.legal_moves();
+        if legal.len() < 2 || !legal.iter().any(|m| m.from == from && m.to == sk) {
+            continue;
+        }
+        let mut solver = Solver::with_memo(1_500_000);
+        if legal.iter().filter(|m| !(m.from == from && m.to == sk)).all(|m| solver.mate_in(&root.apply(m), 3) == Some(true)) {
+            found = Some(root);
+            break;
+        }
+    }
+    found.ok_or(6)
+}
+
+pub fn find_zz3(seed: u64, tries: u32) -> Option<Pos> {
+    let mut x = seed | 1;
+    (0..tries).find_map(|_| zz3_candidate(&mut x).ok())
+}
 pub fn find_zugzwang_root(seed: u64, tries: u32) -> Option<Pos> {
     let mut x = seed | 1;
     (0..tries).find_map(|_| zugzwang_root_candidate(&mut x))
@@ -1024,15 +1143,18 @@ pub fn run_c11(ctx: &mut Ctx) {
         },
     );
     {
-        let kmax: u64 = t.pick(40_000, 120_000);
+        let kmax: u64 = t.pick(150_000, 400_000);
         run_prop(
             ctx,
             "roots_before_a_bounded_reciprocal_zugzwang",
             || any::<u64>(),
-            t.pick(96, 6_000),
+            t.pick(128, 6_000),
             move |seed, st| {
-                let Some(p) = find_zugzwang_root(*seed, 6_000) else {
-                    st.label("no_zugzwang_root_found_in_6000_candidates");
+                // three in four: the sharper construction (blocked pawns, attacker without a tempo
+                // move, sibling moves mated in exactly three); one in four: the plain one
+                let found = if seed % 4 != 0 { find_zz3(*seed, 200_000) } else { find_zugzwang_root(*seed, 6_000) };
+                let Some(p) = found else {
+                    st.label("no_zugzwang_root_found");
                     return Ok(());
                 };
                 let Ok(case) = make_case(&p, &[]) else { return Ok(()) };
@@ -1043,7 +1165,7 @@ pub fn run_c11(ctx: &mut Ctx) {
                 Ok(())
             },
             move |seed| {
-                let mut v = match find_zugzwang_root(*seed, 6_000) {
+                let mut v = match if seed % 4 != 0 { find_zz3(*seed, 200_000) } else { find_zugzwang_root(*seed, 6_000) } {
                     Some(p) => case_json(&p, &[]),
                     None => json!({"fen": null}),
                 };
